@@ -398,7 +398,7 @@ func genSessions(o *hx.Opts) []SessionIn {
 		for b := uint(0); b < 13; b++ {
 			add(1 << b)
 		}
-		for len(evs) < 15+o.N(64, 64) {
+		for len(evs) < 15+o.N(160, 160) {
 			add(r.Uint32() & allEv)
 		}
 	}
